@@ -376,6 +376,32 @@ fn vp_native_chunked_data_delivered_as_it_arrives_body() {
             } }
         }
     } }
+    // small chunks, both spellings of every line break (CRLF and the bare LF the reader also takes), every way the transport may
+    // cut the bytes into segments of 1..=12 bytes and every BufReader capacity that matters: whatever has arrived completely -
+    // a chunk's data *and* its line break - is readable before the transport is asked for what the server has not sent
+    for sizes in [&[5usize][..], &[1, 4], &[5, 1, 3], &[9]] { for size_le in [&b"\r\n"[..], b"\n"] { for data_le in [&b"\r\n"[..], b"\n"] { for next in [&b""[..], b"3", b"3\r"] {
+        let chunks: Vec<Vec<u8>> = sizes.iter().enumerate().map(|(i, &n)| (0..n).map(|j| b'a' + ((i * 7 + j) % 26) as u8).collect()).collect();
+        let mut wire = Vec::new();
+        for c in &chunks { wire.extend_from_slice(format!("{:x}", c.len()).as_bytes()); wire.extend_from_slice(size_le); wire.extend_from_slice(c); wire.extend_from_slice(data_le); }
+        wire.extend_from_slice(next);   // what has arrived of the next size line (nothing / a digit / a digit and a CR) - the server pauses here
+        let want: Vec<u8> = chunks.concat();
+        for seg in 1..=12usize { for cap in [1usize, 2, 3, 8, 8192] { for rs in [1usize, 2, 5, 64] {
+            let paused = Script { data: &wire, pos: 0, seg, calls: 0, fail_at: None, kind: io::ErrorKind::WouldBlock, sticky: false };
+            let mut r = ChunkedReader::new(BufReader::with_capacity(cap, Pausing(paused)));
+            let mut got = Vec::new();
+            while got.len() < want.len() {
+                let mut buf = vec![0u8; rs];
+                match r.read(&mut buf) {
+                    Ok(0) => panic!("clean end although the terminating chunk never arrived"),
+                    Ok(n) => got.extend_from_slice(&buf[..n]),
+                    Err(_) => break,
+                }
+            }
+            cases += 1; crate::verif_native_watchdog::progress();
+            assert!(got == want, "only {:?} of {:?} could be read before the reader waited for more input: wire {:?} in segments of {}, BufReader capacity {}, reads of {} bytes",
+                    String::from_utf8_lossy(&got), String::from_utf8_lossy(&want), String::from_utf8_lossy(&wire), seg, cap, rs);
+        } } }
+    } } } }
     // the whole body including its terminating chunk has arrived and the server keeps the connection open: the end is known, so
     // every further read is answered at once with Ok(0) and never asks the transport for more
     for &a in &[1usize, 5, 65536, 70000] { for seg in [4096usize, 1 << 20] { for rs in [1usize, 1000, 100000] {
